@@ -691,3 +691,70 @@ func (w *World) builtFields(f *Func, v types.Object) (map[string]ast.Expr, bool)
 	}
 	return fields, true
 }
+
+// readOnlyTable: obj is an unexported package-level variable initialised by a map (or slice/array) composite literal that
+// nothing in its package writes: every use is an index read t[k] (not assigned to, not incremented, its address not
+// taken) — the table is never passed on, ranged with mutation, deleted from or replaced. Returns the literal.
+func readOnlyTable(w *World, pkg *packages.Package, obj types.Object) (*ast.CompositeLit, string) {
+	v, ok := obj.(*types.Var)
+	if !ok || v.Parent() != pkg.Types.Scope() {
+		return nil, "not a package-level variable"
+	}
+	if ast.IsExported(v.Name()) {
+		return nil, "exported: other packages can write it"
+	}
+	info := pkg.TypesInfo
+	var lit *ast.CompositeLit
+	for _, file := range pkg.Syntax {
+		for _, d := range file.Decls {
+			gd, ok := d.(*ast.GenDecl)
+			if !ok || gd.Tok != token.VAR {
+				continue
+			}
+			for _, sp := range gd.Specs {
+				vs := sp.(*ast.ValueSpec)
+				for i, nm := range vs.Names {
+					if info.Defs[nm] == obj && len(vs.Values) == len(vs.Names) {
+						lit, _ = unparen(vs.Values[i]).(*ast.CompositeLit)
+					}
+				}
+			}
+		}
+	}
+	if lit == nil {
+		return nil, "not initialised by a composite literal"
+	}
+	bad := ""
+	for _, file := range pkg.Syntax {
+		ast.Inspect(file, func(n ast.Node) bool {
+			id, ok := n.(*ast.Ident)
+			if !ok || info.Uses[id] != obj || bad != "" {
+				return true
+			}
+			ix, isIx := w.parent[id].(*ast.IndexExpr)
+			if !isIx || ix.X != ast.Expr(id) {
+				bad = "used other than by indexing at " + w.Pos(id.Pos())
+				return true
+			}
+			switch p := w.parent[ix].(type) {
+			case *ast.AssignStmt:
+				for _, l := range p.Lhs {
+					if l == ast.Expr(ix) {
+						bad = "an element is assigned at " + w.Pos(id.Pos())
+					}
+				}
+			case *ast.IncDecStmt:
+				bad = "an element is modified at " + w.Pos(id.Pos())
+			case *ast.UnaryExpr:
+				if p.Op == token.AND {
+					bad = "the address of an element is taken at " + w.Pos(id.Pos())
+				}
+			}
+			return true
+		})
+	}
+	if bad != "" {
+		return nil, bad
+	}
+	return lit, ""
+}
